@@ -232,6 +232,24 @@ func ruleTSMult(c *Ctx) {
 	c.Check(okRead, "time.LongCodec/Read-scale", P.pos(rd.Pos()), "time.Unix(0, l*c.mult): the stored long times mult is nanoseconds", "the reader does not compute time.Unix(0, l*c.mult)")
 	c.Rule("TS-UNIT", "", 0)
 	wr := ct.M["Write"]
+	// the conversion to the unit may live in a helper method of the codec (units(t) int64): judge its paths
+	hasUnitCall := func(f *ssa.Function) bool {
+		for _, cs := range callsIn(f) {
+			if cs.Static != nil {
+				if _, has := nsPerUnitOfMethod[qualName(cs.Static)]; has {
+					return true
+				}
+			}
+		}
+		return false
+	}
+	if !hasUnitCall(wr) {
+		for _, cs := range callsIn(wr) {
+			if cs.Static != nil && P.isModuleFunc(cs.Static) && cs.Static.Signature.Recv() != nil && len(cs.Common.Args) > 0 && recvIsOurs(wr, cs.Common.Args[0]) && hasUnitCall(cs.Static) {
+				wr = cs.Static
+			}
+		}
+	}
 	paths, ok := enumeratePaths(wr)
 	if !ok {
 		c.Unk("time.LongCodec/Write-unit", P.pos(wr.Pos()), "path budget exceeded")
@@ -314,6 +332,17 @@ func multTable(P *Program, mv ssa.Value, schema *ssa.Parameter) (map[string]int6
 		return nil, false
 	}
 	out := map[string]int64{}
+	// f(schema.Object): a helper from the (possibly nil) object part straight to the multiplier
+	if strings.HasSuffix(accessPath(call.Call.Args[0]), "->Object)") {
+		for name, s := range map[string]string{"(none)": "", "timestamp-micros": "timestamp-micros", "timestamp-millis": "timestamp-millis", "(other)": "x-some-other-logical-type"} {
+			k, okK := evalIntOfObject(P, f, name == "(none)", s)
+			if !okK {
+				return nil, false
+			}
+			out[name] = k
+		}
+		return out, true
+	}
 	for name, s := range map[string]string{"(none)": "", "timestamp-micros": "timestamp-micros", "timestamp-millis": "timestamp-millis", "(other)": "x-some-other-logical-type"} {
 		arg := call.Call.Args[0]
 		sv := s
@@ -442,6 +471,58 @@ func evalStringOfSchema(g *ssa.Function, objNil bool, lt string) (string, bool) 
 			return "", false
 		}
 		res = got
+		n++
+	}
+	return res, n > 0
+}
+
+// evalIntOfObject: the constant f(obj) returns on every path consistent with
+// obj being nil (objNil) or non-nil with logical type lt.
+func evalIntOfObject(P *Program, f *ssa.Function, objNil bool, lt string) (int64, bool) {
+	paths, ok := enumeratePaths(f)
+	if !ok || len(f.Params) != 1 {
+		return 0, false
+	}
+	pp := f.Params[0].Name()
+	var res int64
+	n := 0
+	for _, p := range paths {
+		if p.Ret == nil {
+			return 0, false
+		}
+		consistent := true
+		if v, has := p.State.eq[pp]; has && (v == "nil") != objNil {
+			consistent = false
+		}
+		if p.State.ne[pp]["nil"] && objNil {
+			consistent = false
+		}
+		for k, v := range p.State.eq {
+			if strings.HasSuffix(k, "->LogicalType)") {
+				if objNil || strings.TrimPrefix(v, "s:") != lt {
+					consistent = false
+				}
+			}
+		}
+		for k, m := range p.State.ne {
+			if strings.HasSuffix(k, "->LogicalType)") {
+				if objNil || m["s:"+lt] {
+					consistent = false
+				}
+			}
+		}
+		if !consistent {
+			continue
+		}
+		rv := resolvedResults(p.Ret)[0]
+		if phi, isPhi := rv.(*ssa.Phi); isPhi {
+			rv = phiValueOnPath(phi, p.Blocks)
+		}
+		k, okK := (Folder{P}).FoldInt(rv)
+		if !okK || n > 0 && k != res {
+			return 0, false
+		}
+		res = k
 		n++
 	}
 	return res, n > 0
